@@ -612,6 +612,16 @@ func TestC16(t *testing.T) {
 			rec(nil, l)
 		}
 
+		// late faults: a first failure long after the start (or after the last one) must still be followed by a
+		// backoff inside the window - the schedule has no deadline after which it stops delaying
+		for _, kind := range []string{"controller", "hook", "task"} {
+			cases = append(cases,
+				c16Case{Kind: kind, Script: []rInv{{Out: "err", Dur: 20 * 60e9}, {Out: "err"}, {Out: "panic"}, {Out: "nil"}}},
+				c16Case{Kind: kind, Script: []rInv{{Out: "err"}, {Out: "err", Dur: 16 * 60e9}, {Out: "err"}, {Out: "nil"}}},
+				c16Case{Kind: kind, Script: []rInv{{Out: "err", Reset: true, Dur: 45 * 60e9}, {Out: "err"}, {Out: "nil"}}},
+			)
+		}
+
 		for range tier(40, 1500) {
 			var s []rInv
 			for range 4 + r.intn(10) {
